@@ -10,7 +10,7 @@ CLAUSES = {
     "C01": {"ran_twice", "stranded", "submit_hang"},
     "C02": {"wrong_result", "late_join", "join_timeout_finished"},
     "C12": {"stop_lost_task", "accepted_after_stop"},
-    "C15": {"no_overlap"},
+    "C15": {"no_overlap", "loop_stalled"},
 }
 DEATH = {"panic", "abort", "hang"}
 
@@ -59,6 +59,9 @@ def scenarios(pid, tier, rng):
             for d in (100, 300) if thorough else (100,):
                 scs.append({"loops": 1, "submitters": 1, "per": n, "body": "sleep", "sleep_ms": d, "join": True, "join_ms": 3000, "max": 16})
                 scs.append({"loops": 1, "submitters": 1, "per": n, "body": "recvwait", "sleep_ms": d, "join": True, "join_ms": 3000, "max": 16})
+            # a socket shared by a reader and a writer task: the parked reader must not keep the loop from running the others
+            if n >= 4:
+                scs.append({"loops": 1, "submitters": 1, "per": n, "body": "duplex", "sleep_ms": 1000, "join": True, "join_ms": 4000, "max": 16})
             # worker creations that failed earlier must not have used up worker slots: exactly n slots, n - 1 failures before
             scs.append({"loops": 1, "submitters": 1, "per": n, "body": "sleep", "sleep_ms": 100, "join": True, "join_ms": 3000, "max": n,
                         "bad_spawns": n - 1})
@@ -88,6 +91,10 @@ def run_e2e(pid, tier, v, cov, wd, bindir):
         rec = {"clause": x[1], "scenario_id": x[2], "trace_index": x[0], "detail": x[3] if len(x) > 3 else None,
                "loops": sc.get("loops"), "submitters": sc.get("submitters"), "body": sc.get("body"), "driver": "e2e", "scenario": sc}
         if x[1] in mine:
+            # the one clause of this driver that reads a clock (an observer thread's record 500 ms into the scenario)
+            if x[1] == "loop_stalled" and sc and not reproduces(bindir, "e2e", sc, wd, "ereset", "eend", "Trace_E2E", x[1]):
+                v.note("timing clause %s of scenario %s did not reproduce in two further runs of the scenario alone: not reported" % (x[1], x[2]))
+                continue
             v.add(rec)
         else:
             other[x[1]] = other.get(x[1], 0) + 1
